@@ -268,6 +268,52 @@ def stream_identity_rule(repo: Repo, rep: Report, rid: str) -> None:
     rep.floor(rid, "confirmed private-buffer readers", seen_allowed, 1)
 
 
+def pointer_default_rule(repo: Repo, rep: Report, rid: str) -> None:
+    rep.rule(rid, "the configured pointer type wins: the expression cstruct.__init__ resolves into self.pointer, evaluated for a given / absent 'pointer' "
+                  "argument on a 64-bit and on a 32-bit sys.maxsize, is the argument when one is given and uint64 / uint32 otherwise")
+    from ..minieval import Evaluator, Raised, Refused, Sym, UserFunc
+    from ..util import resolve_local
+
+    fi = repo.func("cstruct.py", "cstruct.__init__")
+    stores = [st for st in ast.walk(fi.node) if isinstance(st, (ast.Assign, ast.AnnAssign)) and
+              any(norm(t) == f"{fi.self_name}.pointer" for t in (st.targets if isinstance(st, ast.Assign) else [st.target]))]
+    if len(stores) != 1 or stores[0].value is None:
+        rep.fail(rid, f"{fi.key}:pointer", f"expected one store to self.pointer in cstruct.__init__, found {len(stores)}", fi.loc())
+        return
+    val = stores[0].value
+    arg = val.args[0] if isinstance(val, ast.Call) and call_name(val) == "resolve" and val.args else val
+    env0 = {q: UserFunc(f.node) for q, f in fi.module.functions.items() if "." not in q}
+    bad = []
+    try:
+        for given in (None, "uint16", "uint64", "uint8"):
+            for maxsize, default in ((2**63 - 1, "uint64"), (2**31 - 1, "uint32")):
+                env = dict(env0)
+                env.update({"pointer": given, "sys": Sym("sys", {"maxsize": maxsize})})
+                # follow the locals the argument is built from (e.g. 'pointer = pointer or <default>' above the store)
+                body = []
+                for st in fi.node.body:
+                    if st is stores[0] or any(st is x for x in ast.walk(stores[0])):
+                        break
+                    if isinstance(st, (ast.Assign, ast.AnnAssign)) and any(isinstance(t, ast.Name) for t in (st.targets if isinstance(st, ast.Assign) else [st.target])):
+                        body.append(st)
+                ev = Evaluator(env, steps=4000)
+                for st in body:
+                    try:
+                        ev.run([st], env)
+                    except (Refused, Raised):
+                        pass
+                got = ev.ev(arg, env)
+                want = given or default
+                if got != want:
+                    bad.append((given, "64-bit" if maxsize > 2**32 else "32-bit", got, want))
+    except (Refused, Raised):
+        rep.ok(rid, f"{fi.key}:pointer", "not foldable with the evaluator's whitelist", fi.loc(), nontrivial=False)
+        return
+    rep.check(not bad, rid, f"{fi.key}:pointer", "8 (argument, platform) cases: the argument wins, the platform default otherwise",
+              f"cstruct(pointer={bad[0][0]!r}) on a {bad[0][1]} interpreter resolves {bad[0][2]!r} as pointer type, expected {bad[0][3]!r}: every pointer field then has "
+              "the wrong width" if bad else "", fi.loc(stores[0]))
+
+
 def run(repo: Repo, rep: Report, tier: str) -> None:
     from .compiled import compiled_fold_rule
 
@@ -283,3 +329,4 @@ def run(repo: Repo, rep: Report, tier: str) -> None:
     from .memo import memo_rule
 
     memo_rule(repo, rep, "C16.R8")
+    pointer_default_rule(repo, rep, "C16.R9")
